@@ -1,6 +1,7 @@
 CONSTANTS
   Ext <- AllExtensions
   Conv = "empty"
+  Syntax <- SyntaxAsExt
   Defects = TRUE
   Mode = "sim"
   Kernel = "full"
